@@ -281,6 +281,49 @@ Fixpoint search_from (r : re) (p : option char) (s : list char) (i : nat) : opti
 Definition search_span (r : sre) (s : list char) : option (nat * nat) :=
   search_from (desugar false r) None s O.
 
+(** regexp-fold (regexp.scm, after fixes/C20-regexp-fold-restart-context.patch): successive searches over the
+    rest [s] of the subject, [i] = index where the next search starts; returns the spans handed to kons, in
+    order (empty matches included; the loop then steps one character, as the code does when i = j).  The
+    restarted search keeps the true previous character [p]: bos/bol/bow refer to the string, not to the restart
+    point (the pinned code passed the restart point as string start: F-C20-6).  [None] = out of fuel. *)
+Fixpoint fold_from (fuel : nat) (r : re) (p : option char) (s : list char) (i : nat)
+  : option (list (nat * nat)) :=
+  match s with
+  | [] => Some []
+  | _ :: _ =>
+    match fuel with
+    | O => None
+    | S fuel' =>
+      match search_from r p s i with
+      | None => Some []
+      | Some (a, b) =>
+          let d := if (b =? i)%nat then 1%nat else (b - i)%nat in
+          option_map (cons (a, b)) (fold_from fuel' r (lastc p (firstn d s)) (skipn d s) (i + d)%nat)
+      end
+    end
+  end.
+
+Definition fold_spans (r : sre) (s : list char) : option (list (nat * nat)) :=
+  fold_from (length s) (desugar false r) None s O.
+
+(** no anchor at all: the language does not depend on the surrounding characters *)
+Fixpoint anchor_free (r : sre) : bool :=
+  match r with
+  | Anc _ => false
+  | Eps | Fail | Chr _ => true
+  | Seq a b | Alt a b => anchor_free a && anchor_free b
+  | Star _ a | Opt _ a | Rep _ _ _ a | Plus a | Sub a | NoCase a | Case a => anchor_free a
+  end.
+
+(** anchors that look at the character before the match position *)
+Fixpoint left_anchored (r : sre) : bool :=
+  match r with
+  | Anc Bos | Anc Bol | Anc Bow | Anc Eow | Anc Nwb => true
+  | Eps | Fail | Chr _ | Anc _ => false
+  | Seq a b | Alt a b => left_anchored a || left_anchored b
+  | Star _ a | Opt _ a | Rep _ _ _ a | Plus a | Sub a | NoCase a | Case a => left_anchored a
+  end.
+
 (** does the SRE contain a non-greedy operator?  (then the overall match need not be longest) *)
 Fixpoint has_nongreedy (r : sre) : bool :=
   match r with
